@@ -82,6 +82,20 @@ def serve(t, d, ce=""):
     return app, r
 
 
+def read_trace(dds_text, xdr):
+    """the sizes of the `read` calls the real decoder issues on `xdr` (the zero-length ones included), up to and
+    including the one that failed"""
+    from pydap.handlers.dap import unpack_dap2_data
+    from pydap.parsers.dds import dds_to_dataset
+
+    tr = X.TracingBytesReader(xdr)
+    try:
+        unpack_dap2_data(tr, dds_to_dataset(dds_text))
+    except Exception:
+        pass
+    return tr.reads
+
+
 def decode_with_client(dds_text, xdr):
     """the client's decoder on a byte string: unpack_dap2_data over a BytesReader, as
     BaseProxyDap2.__getitem__ does"""
@@ -236,6 +250,7 @@ def judge(t, d, tail=b"", heavy=True):
     except Exception as e:
         art["decoded"] = None
         fails.append(("client fails on reference-encoded bytes: %s" % type(e).__name__, repr(e)[:200], pack(d)))
+    art["trace"] = read_trace(dds_text, ref + tail)
     # ---- decoder direction, streaming readers: the same bytes in pieces ----------------------------------
     art["streams"] = []
     for path, kind, tt, line, out in stream_paths(t, d, ref, tail, dds_text, heavy):
@@ -288,6 +303,8 @@ def check_dataset(ctx, t, d, cases, where, tail=b""):
     else:
         impl = "(err)"
     cases.append(("xdr-dec %s %s" % (ts, hexb(art["ref"] + tail)), impl, meta))
+    cases.append(("xdr-trace %s %s" % (ts, hexb(art["ref"] + tail)), " ".join(str(n) for n in art["trace"]), meta))
+    ctx.tags["last-read:" + ("zero" if art["trace"] and art["trace"][-1] == 0 else "nonzero")] += 1
     for path, kind, tt, line, out in art["streams"]:
         m2 = dict(meta, path=path)
         if out[0] == "err":
@@ -322,6 +339,26 @@ def check_malformed(ctx, t, d, rng, cases):
     except Exception:
         impl = "(err)"
     cases.append(("xdr-dec %s %s" % (X.tmpl_sexp(t), hexb(blob)), impl, {"tmpl": pack(t), "cut": cut, "cls": "malformed"}))
+    cases.append(("xdr-trace %s %s" % (X.tmpl_sexp(t), hexb(blob)), " ".join(str(n) for n in read_trace(dds_text, blob)),
+                  {"tmpl": pack(t), "cut": cut, "cls": "malformed"}))
+    # the cut stream through a StreamReader: must raise as well (model: `(err)`), for two chunkings
+    from pydap.handlers.dap import unpack_dap2_data
+    from pydap.lib import StreamReader
+    from pydap.parsers.dds import dds_to_dataset
+    for how in ("whole", "random"):
+        chunks = X.chunk(blob, how, cut)
+        try:
+            it = iter(chunks)
+            reader = StreamReader(it)
+            values = unpack_dap2_data(reader, dds_to_dataset(dds_text))
+            got = X.canon(t, X.decoded_to_raw(values, t))
+            impl2 = "(ok %s %s)" % (X.data_sexp(t, got), hexb(bytes(reader.buf) + b"".join(it)))
+            ctx.oracle_fail("a truncated reference stream decodes through StreamReader/" + how,
+                            {"tmpl": pack(t), "data": pack(d), "cut": cut, "how": how}, impl2[:200], "an exception")
+        except Exception:
+            impl2 = "(err)"
+        cases.append(("xdr-dec-sr %s (%s)" % (X.tmpl_sexp(t), " ".join(hexb(c) for c in chunks)), impl2,
+                      {"tmpl": pack(t), "cut": cut, "cls": "malformed"}))
     ctx.tags["malformed:" + impl[:4]] += 1
 
 
@@ -462,6 +499,18 @@ def replay(payload):
     t = unpack_t(c["tmpl"])
     d = unpack_d(t, c["data"])
     tail = bytes.fromhex(c.get("tail", "x")[1:]) if isinstance(c.get("tail"), str) else b""
+    if "cut" in c:
+        from pydap.handlers.dap import unpack_dap2_data
+        from pydap.lib import StreamReader
+        from pydap.parsers.dds import dds_to_dataset
+        blob = X.ref_enc(t, d)[:c["cut"]]
+        try:
+            unpack_dap2_data(StreamReader(iter(X.chunk(blob, c["how"], c["cut"]))), dds_to_dataset(X.ref_dds(t)))
+        except Exception as e:
+            print("truncated stream raises %s" % type(e).__name__)
+            return True
+        print("FAILS: a reference stream cut at %d decodes through StreamReader/%s" % (c["cut"], c["how"]))
+        return False
     if "ce" in c:
         # replay the recorded constraint literally against the recorded reference encoding
         app, r = serve(t, d, c["ce"])
